@@ -625,7 +625,7 @@ void setup(vf::Options &o) {
   g_seam = o.get("seam", "agg");
   g_nmax = atoi(o.get("n", o.thorough ? "5" : "3").c_str());
   g_fulln = atoi(o.get("fulln", o.thorough ? "3" : "2").c_str());
-  g_viewn = atoi(o.get("viewn", o.thorough ? "4" : "2").c_str());
+  g_viewn = atoi(o.get("viewn", o.thorough ? "3" : "2").c_str());
   g_alphabet = o.get("alphabet", g_seam == "meter" ? "core" : "full");
 }
 
